@@ -154,7 +154,6 @@ theorem success_needs_threshold (ord : List Group → List Group) (hord : ∀ l,
       exact getProphecy_setProphecy_same _ _
     · unfold thresholdMet
       rw [hwl, ← e3]
-      simp only [BridgeConsts.consensusNum, BridgeConsts.consensusDen]
       simp [hineq.1, hineq.2]
     · rw [hwl]; exact hineq.1
     · rw [hwl]; exact hineq.2
